@@ -31,8 +31,8 @@ ASSUMPTIONS = ["no faults are injected in this check (see C20)",
                "dict keys are compared as canonical float strings: the adapter is JSON based, 1.0 <-> '1.0' is not a difference the property can mean",
                "the `lock` field is excluded: _get_instance_state deliberately externalises it as False",
                "every compared instance has a session when GET /save-state is called"]
-FAULT_KINDS = []
-PROBES = ["numeric_manager_name", "abandoned_stream", "second_save_load_cycle", "live_instance_diverged_from_saved", "save_state_after_eviction", "second_session_in_instance", "loaded_via_timeout", "loaded_via_load_state", "loaded_via_restart", "saved_via_save_state", "compressed_mode",
+FAULT_KINDS = ["preemption", ]
+PROBES = ["two_stepping_requests_in_flight", "numeric_manager_name", "abandoned_stream", "second_save_load_cycle", "live_instance_diverged_from_saved", "save_state_after_eviction", "second_session_in_instance", "loaded_via_timeout", "loaded_via_load_state", "loaded_via_restart", "saved_via_save_state", "compressed_mode",
           "step_without_body", "step_with_empty_settings", "nonuniform_settings", "decimal_dt"]
 EXHAUSTIVE = {"quick": False, "thorough": False}
 
@@ -92,6 +92,13 @@ def generate(spec):
                 n = min(budget, rng.choice([1, 2, 3]))
                 ops.append({"op": "steps", "n": n, "settings": s if s is not None else {}})
                 budget -= n
+            elif r < 0.84 and len(ops) > 1 and budget > 3 and rng.random() < 0.5:
+                # two stepping requests of this instance in flight together (line-level schedule inside server and adapter):
+                # whatever was served is what a restore brings back
+                s2 = copy.deepcopy(fixed) if uniform else {}
+                ops.append({"op": "pair", "a": {"op": "steps", "n": 2, "settings": s2}, "b": {"op": "step", "settings": copy.deepcopy(s2)},
+                            "sched": {"kind": "random", "seed": rng.randrange(2**32), "p": rng.choice([0.02, 0.1, 0.3])}})
+                budget -= 3
             elif r < 0.86 and len(ops) > 1 and budget > 2:
                 # a client that hangs up in the middle of a stream: the steps it was sent are taken and saved
                 ch = rng.choice([2, 3, 4, 6])
@@ -139,6 +146,9 @@ def generate(spec):
     return case
 
 
+PAIR_TRACE = ("server/bptkServer.py", "BPTK_Py/bptk.py", "externalstateadapter/externalStateAdapter.py")
+
+
 def rng_bit(case):
     return len(case["instances"]) % 2 == 0
 
@@ -172,10 +182,20 @@ def norm(x):
     return x
 
 
+def _flat(ops):
+    out = []
+    for o in ops:
+        if o["op"] == "pair":
+            out += [o["a"], o["b"]]
+        else:
+            out.append(o)
+    return out
+
+
 def _settings_shapes(ops):
     shapes = set()
-    for o in ops:
-        if o["op"] in ("step", "steps", "stream"):
+    for o in _flat(ops):
+        if o["op"] in ("step", "steps", "stream", "stream_cut"):
             s = o.get("settings")
             shapes.add(canon_json(sorted(_paths(s))) if s else "EMPTY" if s is not None else "NONE")
     return shapes
@@ -199,7 +219,8 @@ def execute(case):
     MGR = sorted(cfg["model"]["managers"])[0]
     if MGR != "smA":
         res.probe("numeric_manager_name")
-    with ServerWorld({"model": cfg["model"], "adapter": cfg["adapter"], "threads": "serial"}, log, res) as w:
+    conc = any(o["op"] == "pair" for inst in case["instances"] for o in inst["ops"])
+    with ServerWorld({"model": cfg["model"], "adapter": cfg["adapter"], "threads": "auto" if conc else "serial"}, log, res) as w:
         w.boot()
         ids = []
         statuses = []
@@ -229,6 +250,30 @@ def execute(case):
                 elif o["op"] == "steps":
                     r = w.post("/%s/run-steps" % iid, {"settings": o["settings"], "numberSteps": o["n"]})
                     res.sim_units += o["n"]
+                elif o["op"] == "pair":
+                    from sim.threads import Scheduler, make_policy, run_tasks
+                    box = {}
+
+                    def ca():
+                        box["a"] = w.post("/%s/run-steps" % iid, {"settings": o["a"]["settings"], "numberSteps": o["a"]["n"]})
+
+                    def cb():
+                        box["b"] = w.post("/%s/run-step" % iid, {"settings": o["b"]["settings"]})
+                    sp = dict(o["sched"])
+                    narrow = sp["seed"] % 3 == 0
+                    sched = Scheduler(make_policy(sp), PAIR_TRACE[2:] if narrow else PAIR_TRACE, log=None)
+                    with sched:
+                        rr_ = run_tasks(sched, [ca, cb])
+                    for x_ in rr_:
+                        if x_ and x_[0] == "exc":
+                            raise x_[1]
+                    res.probe("two_stepping_requests_in_flight")
+                    if sched.switches > 2:
+                        res.fault("preemption", sched.switches)
+                    log.add("pair", j, n, sched.interleaving_hash(), box["a"].status, box["b"].status)
+                    bad = [x for x in (box["a"], box["b"]) if x.status != 200 and "locked" not in str(x.text)]
+                    r = bad[0] if bad else (box["a"] if box["a"].status == 200 else box["b"])
+                    res.sim_units += 3
                 elif o["op"] == "stream_cut":
                     r, cut, _ = w.stream("/%s/stream-steps" % iid, {"settings": o["settings"]}, chunks=o["chunks"])
                     if cut:
@@ -405,7 +450,7 @@ def shrink(case):
 
 
 def _all_ops(case):
-    return [o for inst in case["instances"] for o in inst["ops"]] + list(case.get("more") or [])
+    return _flat([o for inst in case["instances"] for o in inst["ops"]]) + list(case.get("more") or [])
 
 
 def trigger(case, v, f):
